@@ -18,7 +18,8 @@ EXPLANATION = (
     "finding / unproven); (iii) all other sites against a frozen per-function baseline that is explicitly NOT a claim "
     "of safety. A count above the table or baseline — a new panic-capable site in decode-reachable code, e.g. "
     "`?`->unwrap, get->index, try_from->as followed by slicing — is the violation. Also re-checks the guards that keep "
-    "lazy views safe (BAM validate on read, BGZF seek offset bound).")
+    "lazy views safe (BAM validate on read, BGZF seek offset bound)."
+    " The indexing class K3 also covers std functions that assert a precondition on their arguments (Ord::clamp, step_by, div_euclid/rem_euclid, div_ceil, ilog*, from_digit), auto-discharged for constant arguments.")
 ASSUMPTIONS = [
     "the baseline sites (K2/K3/K4 not auto-discharged) are undecided, not safe: the claim for them is 'nothing new'",
     "class-hierarchy analysis over-approximates dynamic dispatch (more obligations, never fewer); no fn-pointer fields exist in workspace ADTs",
